@@ -371,6 +371,27 @@ class Check:
         except Broken as b:
             self.broken.append(b)
             return []
+        # A failing or diverging case must reproduce: when a stream shows any, the whole stream (same
+        # cases, same order, fresh harness process) is run a second time and a case is kept as failing /
+        # diverging only if it fails / diverges in both runs.  Harnesses that drive real goroutines,
+        # sockets and time-outs can be disturbed by machine load; a replay that does not reproduce is
+        # not a replay.  Unreproduced cases are counted in the evidence ("unreproduced").
+        def _bad(e, o, k):
+            pe, po = (project(e), project(o)) if project and e is not None else (e, o)
+            return k != "1" or (compare and e is not None and pe != po)
+        bad = [i for i, (e, o, k) in enumerate(zip(exp, obs, oks)) if _bad(e, o, k)]
+        if bad and os.environ.get("VERIF_NO_CONFIRM") != "1":
+            try:
+                obs2 = run_vh(self.prop, vh_cmd, lines, timeout=timeout, mem_kb=mem_kb, exe=exe)
+                if len(obs2) == len(lines):
+                    oks2 = run_driver(self.prop, ok_fn, ["(%s %s)" % (l, o) for l, o in zip(lines, obs2)]) if ok_fn else ["1"] * len(lines)
+                    obs, oks = list(obs), list(oks)
+                    for i in bad:
+                        if not _bad(exp[i], obs2[i], oks2[i]):
+                            st["unreproduced"] = st.get("unreproduced", 0) + 1
+                            obs[i], oks[i] = obs2[i], oks2[i]
+            except Broken:
+                pass  # the confirmation run itself broke: keep what the first run showed
         seen = set()
         for i, (c, l, e, o, k) in enumerate(zip(cases, lines, exp, obs, oks)):
             self.evaluations += 1
